@@ -21,6 +21,8 @@ CONSTANTS
   Chunks <- %(chunks)s
   Reqs <- %(reqs)s
   MaxWriters = %(writers)d
+  FlushSupported = %(fls)s
+  WithFlush = %(wfl)s
   PutBeforeFlush = %(bad)s
 VIEW View
 %(inv)s
@@ -28,18 +30,21 @@ CHECK_DEADLOCK FALSE
 """
 INV = "INVARIANTS TypeOK NoSharedWriter NoCrossTalk ContentIntact DecisionRule HeaderRule StatusRule"
 ACTIONS = ["Begin", "WriteHeader", "Write", "FinishFlush", "FinishPut"]
+MCCHUNKS2 = "MCChunksTwo"
 
 
-def cfg(spec, handlers, ops, reqs, full=False, bad=False, inv=False, codes=None):
+def cfg(spec, handlers, ops, reqs, full=False, bad=False, inv=False, codes=None, chunks=None, flush=None):
+    """flush: None = scripts without Flush; True / False = with Flush, got through / no-op"""
     return CFG % dict(spec=spec, handlers=handlers, ops=ops, reqs=reqs,
+                      fls="TRUE" if flush else "FALSE", wfl="FALSE" if flush is None else "TRUE",
                       codes=codes or ("MCCodesFull" if full else "MCCodesSmall"),
-                      chunks="MCChunksFull" if full else "MCChunksSmall",
+                      chunks=chunks or ("MCChunksFull" if full else "MCChunksSmall"),
                       writers={"MCOne": 1, "MCTwo": 2, "MCThree": 3}[handlers],
                       bad="TRUE" if bad else "FALSE", inv=INV if inv else "")
 
 
-def mc(ctx, what, handlers, ops, reqs, timeout, codes=None):
-    r = ctx.tlc("Gzip_MC", cfg_text=cfg("Spec", handlers, ops, reqs, inv=True, codes=codes), workers=8, timeout=timeout,
+def mc(ctx, what, handlers, ops, reqs, timeout, codes=None, flush=None):
+    r = ctx.tlc("Gzip_MC", cfg_text=cfg("Spec", handlers, ops, reqs, inv=True, codes=codes, flush=flush), workers=8, timeout=timeout,
                 coverage=ctx.thorough)
     ctx.log("MC %s (%s, <=%d ops, %s): %d generated, %d distinct, %.0fs" % (what, handlers, ops, reqs, r.generated, r.distinct, r.wall))
     if not ctx.need_tlc_ok(r, "Gzip MC " + what):
@@ -53,8 +58,8 @@ def mc(ctx, what, handlers, ops, reqs, timeout, codes=None):
     return True
 
 
-def gen(ctx, what, sink, handlers, ops, reqs, full, timeout=900, codes=None):
-    r = ctx.tlc("Gzip_MC", cfg_text=cfg("GenSpec", handlers, ops, reqs, full=full, codes=codes), workers=8, json_sink=sink, timeout=timeout)
+def gen(ctx, what, sink, handlers, ops, reqs, full, timeout=900, codes=None, chunks=None, flush=None):
+    r = ctx.tlc("Gzip_MC", cfg_text=cfg("GenSpec", handlers, ops, reqs, full=full, codes=codes, chunks=chunks, flush=flush), workers=8, json_sink=sink, timeout=timeout)
     ctx.log("Gen %s (%s, <=%d ops, %s): %d transitions, %.0fs" % (what, handlers, ops, reqs, r.generated, r.wall))
     if not ctx.need_tlc_ok(r, "Gzip Gen " + what):
         return False
@@ -127,9 +132,11 @@ def races(ctx, r, sub):
 def run(ctx):
     ctx.level = "model_checking"
     ctx.assumptions += [
-        "universe: Accept-Encoding {lists gzip, does not, lists gzip with q=0} x Content-Type {matches, does not, absent} x {not encoded, already encoded} x Content-Length {set, not set} x Accept {other, text/event-stream} x {GET, HEAD}; ops WriteHeader(404|204|304), Write(text | random bytes | empty); informational scripts: WriteHeader(103|102|404|204) in any order with the response headers set before or after the informational calls, <=%d ops per handler; two interleaved handlers with <=2 ops each" % ctx.pick(3, 4),
+        "universe: Accept-Encoding {lists gzip, does not, lists gzip with q=0, lists gzip;q=0 next to * or *;q=0, gzip acceptable only via * / unusual spelling} x Content-Type {matches, does not, absent} x {not encoded, already encoded} x Content-Length {set, not set} x Accept {other, text/event-stream} x {GET, HEAD}; ops WriteHeader(404|204|304), Write(text | random bytes | empty); Flush() (through the http.Flusher of the writer the handler was given, if it has one) before / between / after writes; informational scripts: WriteHeader(103|102|404|204) in any order with the response headers set before or after the informational calls, <=%d ops per handler; two interleaved handlers with <=2 ops each" % ctx.pick(3, 4),
         "expression: fabio's documented example for proxy.gzip.contenttype; chunk contents seeded, up to 256 KiB",
         "the mode is left free where statement and documentation are silent: no explicit Content-Type (sniffed), Accept: text/event-stream, nothing written; HEAD / 204 / 304 are asserted for status and labels only",
+        "a Flush may get through the compressing writer (then it commits status 200 and the compress decision is due before that) or be a no-op: status and body presence are accepted under either reading, everything else is asserted as usual",
+        "Accept-Encoding values that make gzip acceptable only through * or an unusual spelling leave the mode free (not compressing is always permitted there); values that refuse gzip (explicit q=0, also next to *; *;q=0 without an explicit entry) must not be compressed",
         "the status of scripts with several WriteHeader calls is cross-checked against (and taken from) a reference run of the same script on net/http without the gzip wrapper",
         "a response the inner handler labelled with a Content-Encoding must pass unchanged (also when that label is gzip)",
         "a data race report involving proxy/gzip/gzip_handler.go counts as a violation (shared writer pool)",
@@ -145,6 +152,10 @@ def run(ctx):
     # informational WriteHeader(1xx) calls before / after the final header, two handlers over the pool
     if not mc(ctx, "informational", "MCTwo", ctx.pick(2, 3), "MCReqsInfoPair", ctx.pick(200, 900), codes="MCCodesInfoSmall"):
         return
+    # streamed responses: Flush between chunks / before the first one, under both permitted readings
+    for fl in (True, False):
+        if not mc(ctx, "flush-%s" % ("through" if fl else "noop"), "MCTwo", ctx.pick(2, 3), "MCReqsSmall", ctx.pick(200, 900), flush=fl):
+            return
     bad = ctx.tlc("Gzip_MC", cfg_text=cfg("Spec", "MCTwo", 2, "MCReqsSmall", bad=True, inv=True), workers=4, timeout=200)
     if bad.error or bad.timed_out or bad.violated not in ("NoSharedWriter", "ContentIntact", "NoCrossTalk"):
         ctx.inconclusive("the design that returns a writer to the pool before flushing it is NOT rejected by the model's invariants (violated=%s error=%s)"
@@ -165,19 +176,31 @@ def run(ctx):
     info2 = os.path.join(ctx.tmp, "c17.info2")
     if not gen(ctx, "informational-two-handlers", info2, "MCTwo", 2, "MCReqsInfoPair", False, codes="MCCodesInfoSmall"):
         return
+    aef = os.path.join(ctx.tmp, "c17.ae")
+    if not gen(ctx, "accept-encoding", aef, "MCOne", ctx.pick(2, 3), "MCReqsAE", False, codes="MCCodesFlush", chunks=MCCHUNKS2):
+        return
+    flf = os.path.join(ctx.tmp, "c17.flush")
+    if not gen(ctx, "flush", flf, "MCOne", ctx.pick(3, 4), "MCReqsFlush", False, codes="MCCodesFlush", flush=False):
+        return
+    flf2 = os.path.join(ctx.tmp, "c17.flush2")
+    if not gen(ctx, "flush-two-handlers", flf2, "MCTwo", 2, "MCReqsSmall", False, flush=False):
+        return
     behs = os.path.join(ctx.tmp, "c17.behs")
     n1 = share(ctx, one, behs, ctx.pick(0.04, 0.12), boost=4.0)
     n2 = share(ctx, two, behs, ctx.pick(0.03, 0.06), boost=2.0)
     n3 = share(ctx, info, behs, ctx.pick(0.12, 0.15), boost=2.0, need='"code":10')
     n2 += share(ctx, info2, behs, ctx.pick(0.05, 0.3), boost=2.0, need='"code":10')
+    n4 = share(ctx, aef, behs, ctx.pick(0.5, 1.0))
+    n4 += share(ctx, flf, behs, ctx.pick(0.06, 0.12), boost=3.0, need='"ev":"fl"')
+    n2 += share(ctx, flf2, behs, ctx.pick(0.15, 0.5), boost=2.0, need='"ev":"fl"')
 
     # 3. replay against the real handler, concurrently, under the race detector
     r = run_gzip(ctx, behs, "C17 replay", timeout=ctx.pick(400, 850))
     if r is None:
         return
     s = r.summary
-    ctx.log("replayed %d behaviours (%d single-handler + %d two-handler + %d with informational headers selected, %d reference runs without the wrapper): %d handlers, %d delivered gzip / %d plain, %.1f MB written by inner handlers, %d chunks >= 64 KiB, %d failed, %.0fs"
-            % (s["ran"], n1, n2, n3, s["reference_runs"], s["handlers"], s["gzip_mode"], s["plain_mode"], s["inner_bytes"] / 1e6, s["chunks_64k_plus"], s["fails"], r.wall))
+    ctx.log("replayed %d behaviours (%d single-handler + %d two-handler + %d with informational headers + %d Accept-Encoding / Flush selected, %d reference runs without the wrapper): %d handlers, %d delivered gzip / %d plain, %.1f MB written by inner handlers, %d chunks >= 64 KiB, %d failed, %.0fs"
+            % (s["ran"], n1, n2, n3, n4, s["reference_runs"], s["handlers"], s["gzip_mode"], s["plain_mode"], s["inner_bytes"] / 1e6, s["chunks_64k_plus"], s["fails"], r.wall))
     if s["ran"] == 0 or s["gzip_mode"] == 0 or s["plain_mode"] == 0 or s["two_handler_behaviours"] == 0:
         ctx.inconclusive("replay is vacuous: %s" % json.dumps(s)[:400])
     ctx.cover("gzip", traces_validated_against_impl=s["ran"], evaluations=s["handlers"], distinct_nontrivial=s["distinct_nontrivial"],
@@ -191,6 +214,8 @@ def run(ctx):
     px = os.path.join(ctx.tmp, "c17.proxy")
     share(ctx, one, px, ctx.pick(0.02, 0.03), boost=4.0)
     share(ctx, info, px, ctx.pick(0.08, 0.15), boost=2.0, need='"code":10')
+    share(ctx, aef, px, ctx.pick(0.3, 0.5))
+    share(ctx, flf, px, ctx.pick(0.03, 0.05), boost=3.0, need='"ev":"fl"')
     r = run_proxy(ctx, px, "C17 through HTTPProxy", timeout=ctx.pick(300, 600))
     if r is None:
         return
